@@ -11,6 +11,12 @@
   reassembler's single steps, and the correspondence check validates the reference against the real
   reassembler on all generated traffic.  `finding_F32` is the machine-checked witness of a defect
   of the real reassembler that the reference reproduces.
+  Pk/Props/C05Reasm.lean adds the RUN-level theorems about the reference reassembler:
+  `reasm_inorder_run(_wrap)`, `reasm_retransmit_run`, `reasm_slices_invariant` / `reasm_slices_run` (ANY
+  order, duplication and overlapping re-segmentation of slices of the byte string: exactly the bytes are
+  delivered, once, in order, attributed to a packet that carried them), `reasm_reorder_run`, and
+  `reasm_single_conversation_partial` — an instance of `ReasmRecovers` for a wire holding one conversation
+  (handshake + arbitrarily disturbed data in both directions).
 -/
 import Pk.Model.Import
 import Pk.Proofs.Import
